@@ -4,8 +4,8 @@
 #   -> clean tree: demo must pass.  On success the change is stored under /verif/seeded/<ID>-<mX>/.
 set -u
 ID=$1; M=$2
-SRC=/tmp/wt/$ID/_out/$M
-WT=/tmp/wt/verify_${ID}_$M
+SRC=${WTROOT:-/tmp/wt}/$ID/_out/$M
+WT=/tmp/wt/verify3_${ID}_$M
 OUT=/verif/seeded/$ID-$M
 [ -f $SRC/patch.diff ] || { echo "$ID $M: no patch"; exit 2; }
 git -C /repo worktree add -q --detach $WT HEAD || exit 2
